@@ -27,8 +27,10 @@ META = dict(
     trusted_base=['numpy.argsort(kind="stable") as the reference sorting permutation', 'IEEE doubles / scipy.linalg.expm'],
     assumptions=['floats compared at 1e-10 relative + 1e-12 absolute (statement); pdf is the difference quotient '
                  '(cdf(x+dx)-cdf(x))/dx with dx = q99/1e10 by default, so rounding of the two cdf values (a few ulp of 1) '
-                 'is amplified by 1/dx: pdf values are compared at 1e-10 relative + 64*eps/dx absolute (observed noise '
-                 '<= 3*eps/dx), pdf with the explicit step dx = 2^-10 likewise (6e-11 absolute)',
+                 'is amplified by 1/dx: the cdf values of the incremental (vector) and the direct (single time) route differ '
+                 'by rounding of up to ~10 matrix-exponential products (observed <= 70 ulp of 1), so pdf values are '
+                 'compared at 1e-10 relative + 1024*eps/dx absolute (1e-4..1e-3 for the default step, 2.4e-10 for the '
+                 'explicit step dx = 2^-10); this is far below the differences between pdf values at distinct times',
                  'get_epochs results are compared by (start_time, end_time) because Epoch.__eq__ ignores times',
                  'cases in which PhaseGen logs a warning (stiff generator) are skipped'],
 )
@@ -36,6 +38,7 @@ META = dict(
 REL, ABS = 1e-10, 1e-12
 EPS = 2.0 ** -52
 DX = 2.0 ** -10
+PDF_ULPS = 1024     # rounding of the two cdf values entering the difference quotient, in ulp of 1
 CONTAINERS = ('list', 'tuple', 'ndarray')
 
 
@@ -108,9 +111,9 @@ def is_scalar_ep(ep):
 def tolerance(ep, coal_ref):
     if ep == 'pdf':
         dx = float(coal_ref.tree_height.quantile(0.99)) / 1e10
-        return REL, max(ABS, 64 * EPS / dx)
+        return REL, max(ABS, PDF_ULPS * EPS / dx)
     if ep == 'pdf.dx':
-        return REL, max(ABS, 64 * EPS / DX)
+        return REL, max(ABS, PDF_ULPS * EPS / DX)
     return REL, ABS
 
 
@@ -386,9 +389,9 @@ def one(ctx, item):
 
 def run(ctx):
     import check
-    items = list(range(64 if ctx.quick else 320))
+    items = list(range(256 if ctx.quick else 1200))
     if not ctx.quick:
-        items += [f'perm5-{i}' for i in range(24)]
+        items += [f'perm5-{i}' for i in range(48)]
     check.pmap(ctx, 'props.c07', 'one', items, case_timeout=200 if ctx.quick else 900)
 
 
